@@ -32,6 +32,7 @@ type Dep struct {
 	Transients []*Dep // further packages the Embed interface mentions inside one func type (same-named ones preferred)
 
 	SrcAlias string // alias the source files use: "" none, "." dot
+	AltAlias string // a second alias, used by the odd-numbered source files (one path under two names)
 }
 
 // Hazards switches on input shapes that trigger known (open) findings. All false by default: the random
@@ -70,6 +71,7 @@ type Profile struct {
 	SrcName    string // force the source package name ("" = random)
 	SrcClash   bool   // source directory differs from the package name and a dependency shares the source package's name
 	Cluster    bool   // three same-named packages reached only through one func type of a hub package's interface
+	CRLF       bool // every file of the source package uses CRLF line endings
 	Regen      bool // regeneration corpus: while KF-regeneration-alias-feedback is open, no parameter name (user-written
 	// or type-derived) may equal the name of a dependency package (such a parameter is renamed in the first run
 	// only when the package is re-aliased later, and the alias is then read back from the generated file)
@@ -415,6 +417,13 @@ func (b *builder) makeDeps() {
 		uid := b.nextUID()
 		t.Deps = append(t.Deps, &Dep{Path: t.ModPath + "/fx/thing_impl", Dir: "fx/thing_impl", Name: "thing", UID: uid, SrcAlias: "thing", Fixed: true,
 			Struct: "Widget", Ifaces: []string{"Iface"}, Embed: "Emb" + uid, EmbedMethods: []string{"Em" + uid}, Func: "Func", Gen: "Gen", Num: "Num", Constr: "Constr", StrIf: "Str", GenAlias: "List"})
+		if !b.prof.Regen {
+			// one import path that two source files import under two different names (not in the regeneration corpus:
+			// KF-regeneration-inconsistent-aliases)
+			uid := b.nextUID()
+			t.Deps = append(t.Deps, &Dep{Path: t.ModPath + "/fx/gadget", Dir: "fx/gadget", Name: "gadget", UID: uid, SrcAlias: "gad", AltAlias: "gdg",
+				Struct: "Widget", Ifaces: []string{"Iface"}, Embed: "Emb" + uid, EmbedMethods: []string{"Em" + uid}, Func: "Func", Gen: "Gen", Num: "Num", Constr: "Constr", StrIf: "Str", GenAlias: "List"})
+		}
 	}
 	b.genAliases = map[string]bool{}
 	for _, d := range t.Deps {
@@ -638,6 +647,9 @@ func (b *builder) render() {
 				q = d.SrcAlias
 			}
 			q = qualOf(d) // decided tree-wide in the pre-pass
+			if d.AltAlias != "" && f%2 == 1 && !d.needsAlias {
+				q = d.AltAlias
+			}
 			for n := 0; taken[q]; n++ {
 				q = fmt.Sprintf("%sq%sx%d", d.Name, d.UID, n)
 			}
@@ -671,6 +683,36 @@ func (b *builder) render() {
 			}
 		}
 		t.Files[fmt.Sprintf("%s/f%d.go", t.SrcDir, f)] = s.String()
+	}
+	// a last file that imports every explicitly aliased dependency once more, for its side effects only
+	{
+		seen := map[string]bool{}
+		var blanks []string
+		for f := 0; f < nfiles; f++ {
+			for _, d := range usedIn[f] {
+				if d.SrcAlias != "" && d.SrcAlias != "." && !seen[d.Path] {
+					seen[d.Path] = true
+					blanks = append(blanks, d.Path)
+				}
+			}
+		}
+		if len(blanks) > 0 {
+			sort.Strings(blanks)
+			var s strings.Builder
+			fmt.Fprintf(&s, "package %s\n\nimport (\n", t.SrcName)
+			for _, p := range blanks {
+				fmt.Fprintf(&s, "\t_ %q\n", p)
+			}
+			s.WriteString(")\n")
+			t.Files[t.SrcDir+"/zzz_register.go"] = s.String()
+		}
+	}
+	if b.prof.CRLF {
+		for name, src := range t.Files {
+			if strings.HasPrefix(name, t.SrcDir+"/") && strings.HasSuffix(name, ".go") && !strings.Contains(name[len(t.SrcDir)+1:], "/") {
+				t.Files[name] = strings.ReplaceAll(src, "\n", "\r\n")
+			}
+		}
 	}
 	// an existing sibling package that can serve as the destination of -pkg
 	if b.chance(0.5) {
